@@ -176,7 +176,7 @@ def write_evidence(prop, tier, seed, agg, wall_s, rule, extra=None, assumptions=
         "rule": rule,
         "samples": agg.samples[:6] or ["(no run)"],
         "simulated_runs": agg.runs,
-        "inconclusive_runs": agg.inconclusive,
+        "conclusive_runs": agg.runs - agg.inconclusive,
         "runs_per_hour": int(agg.runs / wall_s * 3600) if wall_s > 0 else 0,
         "seeds_per_hour": int(agg.runs / wall_s * 3600) if wall_s > 0 else 0,
         "simulated_seconds": round(agg.sim_seconds, 3),
@@ -186,7 +186,7 @@ def write_evidence(prop, tier, seed, agg, wall_s, rule, extra=None, assumptions=
         "distinct_interleavings_measure": "distinct sha1 digests of the sequence of context-switch, "
                                           "kill, fault, apply and exit events of a run",
         "distinct_abstract_states": len(agg.states),
-        "notes": dict(sorted(agg.notes.items())),
+        "notes": dict(sorted(agg.notes.items()), runs_stopped_by_step_cap_counted_inconclusive=agg.inconclusive),
         "known_findings_observed": list(known),
     }
     if extra:
